@@ -475,6 +475,9 @@ def build_init_tracks_indices(ctx):
     ctx.report.extend(rep)
     pb, pp = piece_index_before(ctx), piece_index_partitioned(ctx)
     return (HDR + ID_TYPES + ITE_MODEL + IB_CONTRACT + ";\n"
+            + "/* index_after: not used by the current text; its contract (c02_index_after) is available so that a call is decided, not undefined */\n"
+            "size_type index_after(size_type size, ThreadId tid)\n__CPROVER_requires(tid != INVALID_ID && (unsigned __int128)size + tid <= (unsigned __int128)(size_type)-1)\n__CPROVER_assigns()\n"
+            "__CPROVER_ensures(__CPROVER_return_value >= size && __CPROVER_return_value == size + tid)\n;\n"
             + "size_type index_partitioned(size_type num_new_tracks, size_type num_vacancies, bool get_from_front, ThreadId tid)\n"
             "__CPROVER_requires(tid != INVALID_ID && tid < num_new_tracks && num_new_tracks <= num_vacancies)\n__CPROVER_assigns()\n"
             "__CPROVER_ensures(__CPROVER_return_value < num_vacancies && __CPROVER_return_value == (get_from_front ? num_new_tracks - 1 - tid : num_vacancies - 1 - tid))\n;\n" + """
@@ -509,7 +512,7 @@ void h_ite(void)
 
 
 UNITS += [
-    Unit("c02_init_tracks_indices", build_init_tracks_indices, "h_ite", enforce="ITE_indices", replace=["index_before", "index_partitioned"], timeout=300, backend=["sat", "kissat", "cvc5"],
+    Unit("c02_init_tracks_indices", build_init_tracks_indices, "h_ite", enforce="ITE_indices", replace=["index_before", "index_partitioned", "index_after"], timeout=300, backend=["sat", "kissat", "cvc5"],
          must_have=[r"ITE_indices.postcondition", r"celer_expect", r"index_before.precondition", r"index_partitioned.precondition"], checks=["--bounds-check", "--pointer-check", "--unsigned-overflow-check"],
          assumptions=["the values in data.indices are positions among the step's new initializers (< num_new_tracks; produced by partition_initializers)", "counters describe the filled parts of the arrays (established by the extend_from_* actions, C16/C02 units)"],
          note="InitTracksExecutor::operator() index slice (two spans of the real text): every read of initializers / vacancies / parents / indices is in bounds and at the position that makes the assignment thread -> initializer/vacancy/parent injective (counted from the back; via the partitioned index array when sorting by charge); primaries never read the parent array; callee preconditions hold"),
